@@ -66,7 +66,21 @@ seeded so far, asking for a mechanism, a code location *and* a triggering input
 that differ from every one of them; a thirteenth round (`Y01-r13` … `Y12-r13`)
 repeated that with the list grown to 166 and the properties paired differently,
 and a fourteenth (`X01-r14` … `X12-r14`, list of 178) and a fifteenth
-(`W01-r15` … `W12-r15`, list of 188) once more. Two changes of the
+(`W01-r15` … `W12-r15`, list of 188) once more. A sixteenth round (`Q01-r16` …
+`Q12-r16`, list of 200) prescribed the *way the change must manifest*: two
+cooperating sites that each look fine alone (six agents), a multi-step sequence
+or process history (five: second hop, re-encode, process-wide state such as
+registries, caches and `sync.Map`s, the same value used twice), or a particular
+goroutine interleaving under read-only use (one). Three of its agents arrived
+independently at the same mechanism — a process-wide table that interns the type
+mark of opaque layers per family name and so stamps the first-seen mark
+extension on later ones (`Q02`, `Q04`, `Q12`; all three kept, they sit in
+different functions and were aimed at different properties). A seventeenth round
+of ten (`H01-r17` … `H10-r17`, list of 206) prescribed either an *unusual but
+legal input* (extreme size or count, an encoding boundary, the same value
+twice, boundary arguments) or a *fault or hostile peer at one particular point*
+(a decoder that declines, a malformed wire field, a third-party method that
+misbehaves). Two changes of the
 fourteenth round were not kept because their triggers lie outside the inputs for
 which the properties hold on the unchanged tree: `X02` needs a third-party type
 whose own `%v` rendering differs from its `Error()` text (the library itself
@@ -94,7 +108,7 @@ suite is thin.
 Outcome: **every one of the {n} changes is reported as a VIOLATION by the quick
 tier of the check of the property it was written against** (seed 1). About a
 quarter of them were *missed* by the version of the monitor that existed when
-they arrived (round 1: 3, round 2: 8, round 3: 7, round 4: 2, round 5: 3, round 6: 4, round 7: 7, round 8: 4, round 9: 6, round 10: 2, round 11: 1, round 12: 5, round 13: 6, round 14: 4, round 15: 5, plus two
+they arrived (round 1: 3, round 2: 8, round 3: 7, round 4: 2, round 5: 3, round 6: 4, round 7: 7, round 8: 4, round 9: 6, round 10: 2, round 11: 1, round 12: 5, round 13: 6, round 14: 4, round 15: 5, round 16: 1 (and one caught on 1–5 observations only), round 17: 6 — the rounds that prescribed extreme inputs and faults at one point, which the depth-bounded generator and the well-behaved peers of the simulation did not produce — plus two
 regression found by re-running every stored change against its own check after
 the harness had changed — `tools/diag.sh`: `K07-r5` and `C20-r2` had been caught
 through coincidences of the generator; the tool also prints how many violation
@@ -114,6 +128,58 @@ argument values at their boundaries (empty, zero, nil, multi-line), foreign
 types with unusual method sets, and the ownership of what goes into and comes out
 of the API.
 
+* **all monitors that draw trees through `caseTree`** (C01, C02, C04, C08, C09,
+  C10, C12, C15, C20) — *extreme but legal shapes* (`gen.Extreme`, §2.1): a chain
+  of 32–40 wrappers (half of the time as a branch of a multi-cause node), a
+  multi-cause node with 9–12 causes, a message longer than 4 KiB, the same error
+  value as two causes of one node, a spine of 6–8 nested two-cause nodes; every
+  24th PRNG-driven case (12th in the thorough tier; a quarter as many in the
+  monitors that evaluate `Is` over all pairs of layers), the five shapes in turn
+  by case ordinal, so that each occurs in every run. Added while round 17 was
+  under way; `H01-r17` and `H10-r17` (a depth bound of 32 in the encoder) are caught
+  through it and were out of reach before; `H05-r17` (indentation clamped 16
+  levels below a multi-cause node) after the deep chain was also placed *under* a
+  multi-cause node and the scheduling was changed from `case % 128` to the
+  ordinal among the PRNG-driven cases (C09 has only ~900 of those in its quick
+  tier).
+* **all monitors** — the regular word list got runes whose UTF-8 encoding is next
+  to that of the redaction markers (`‸` U+2038, `※` U+203B, `—`, `…`): legal text
+  that a hand-written byte scanner for the markers may hit (`H02-r17`).
+* **C09 / C10** — `repeatLayer`: one case in eight gets a second layer with the
+  *same kind and the same arguments* as a wrapper already in the chain (the same
+  domain, hint, tag set, code, prefix … twice), with 0–2 other annotations in
+  between, and usually a layer above the pair that composes its own text from
+  what is below (prefix, barrier, `%w` argument, join) (`Q07-r16`: "do not repeat a
+  domain the layers below already carry" — the doubly annotated node's own
+  `Error()` stays right, its parent's does not).
+* **C04** — the unknowing-process simulation got a third mode (`Declining`, every
+  third subset): the forgotten types are not without a decoder but have a *leaf
+  decoder that declines* (public `RegisterLeafDecoder`, removed again afterwards) —
+  an older version of the type, or a type that used to be a plain leaf; the
+  library must fall back to the same opaque representation, the one that keeps
+  multi-error causes included (`H04-r17`).
+* **C08** — the error whose `Error()` method panics is now also the error *under
+  examination*, bare and below library wrappers, with references that do not
+  match: no panic, `IsAny` = disjunction of `Is`, reflexive (`H06-r17`; before, it
+  was only ever the reference).
+* **C18** — *same-operation storms*: after the mixed phase, five PRNG-chosen
+  operations per case are run by all goroutines at once, 4 / 8 times back to back.
+  `Q10-r16` (a lock-free package-level memo whose key and value are published by
+  two separate atomic operations: nothing for the race detector, only the
+  determinism monitor can see it) was caught on 1–5 observations per run before,
+  5–11 after.
+* **C19** — one case in eight is a chain of 10–28 annotations (mostly hints and
+  details) whose texts come from a pool of 18 with repeats far apart (`H08-r17`:
+  de-duplication that changes its data structure after 8 entries).
+* **C20** — `c20statusWithDetails` (every 64th case): a handler error that already
+  is a gRPC status error *and carries details of its own* that the intercepting
+  client cannot unmarshal (standard-protobuf messages unknown to the gogo registry),
+  compared between the plain and the intercepting client: Go type, status proto,
+  text (`H09-r17`). The forwarded RPC got its own watchdog context, whose expiry is
+  *inconclusive*: it shared the first RPC's 60 s context, which the observations in
+  between can use up on a loaded machine (seen once, with a 20-level multi-cause
+  spine whose rendering cost is exponential in the depth; a false alarm of the
+  harness, fixed before it was ever committed).
 * **C01 / C04** — one case in eight uses the string class `RegularBin`: regular
   strings with a byte sequence that is not valid UTF-8 in the middle of a word
   (`Z01-r12`; the fully hostile class cannot be used here: marker runes and
